@@ -89,6 +89,14 @@ FF(c, Q, n) == LET s2 == S2(Q)
                    t(i) == MulP(c[i], Exp(Neg(MulP(c[i + 1], s2, 14)), 12), 14)
                    v == Add(Add(Add(t(1), t(3)), t(5)), c[7])
                IN IF n = 0 THEN v ELSE MulP(s2, v, 14)
+\* the form factors of one charge state evaluated one after the other over the caller's array of Q
+VecClause(e) ==
+  IF ~e.kept THEN "FormFactorLeavesItsArgumentAlone"
+  ELSE IF \E jn \in DOMAIN e.sets :
+            LET v == e.sets[jn].vec  s == e.sets[jn].scalar
+            IN Len(v) # Len(s) \/ \E i \in DOMAIN s : v[i].k # "num" \/ s[i].k # "num" \/ ~CloseScaled(v[i].v, s[i].v, -12, One)
+       THEN "VectorIsPointwise"
+  ELSE "ok"
 EvalClause(e) ==
   LET k == <<e.z, e.q, e.jn>>
   IN IF k \notin DOMAIN mag THEN "EvalOfUnknownSet"
@@ -141,6 +149,7 @@ Step ==
           [] e.ev = "serve_mag" -> Emit(e.id, MagClause(e)) /\ UNCHANGED <<cov, cryst, emis, mag, cm>>
           [] e.ev = "serve_cm" -> Emit(e.id, IF CmClause(e) # "ok" THEN CmClause(e) ELSE CmRoutes(e)) /\ UNCHANGED <<cov, cryst, emis, mag, cm>>
           [] e.ev = "eval_mag" -> Emit(e.id, EvalClause(e)) /\ UNCHANGED <<cov, cryst, emis, mag, cm>>
+          [] e.ev = "eval_mag_vec" -> Emit(e.id, VecClause(e)) /\ UNCHANGED <<cov, cryst, emis, mag, cm>>
 TraceSpec == Init /\ [][Step]_vars
 Done == TLCGet("stats").diameter = Len(Log) /\ PrintT("@@" \o ToJson([summary |-> TRUE, events |-> Len(Log) - 1]))
 =============================================================================
